@@ -15,7 +15,7 @@ from . import values as V
 from .engine import Config, Explorer, PathEnd, PyRaise, SExc, State
 from .interp import FnVal, Frame, Interp, LoopSpec
 from .seqs import DRef, LRef, SObj, View
-from .shapes import Atom, Bool, Const, Enum, Int, ListOf, Nat, Obj, Opaque, Opt, Slice, Tup, TupleOf, Union  # noqa: F401
+from .shapes import Atom, Bool, Const, Custom, Enum, Int, ListOf, Nat, Obj, Opaque, Opt, Slice, Tup, TupleOf, Union  # noqa: F401
 from .values import (  # noqa: F401
     SBool,
     Sym,
@@ -27,6 +27,7 @@ from .values import (  # noqa: F401
     eq,
     fdiv,
     fmod,
+    forall,
     iabs,
     imax,
     imin,
@@ -39,6 +40,8 @@ from .values import (  # noqa: F401
     mk_bool,
     val,
     neg,
+    opt_eq,
+    opt_isnone,
 )
 
 def count_ev(trace, name):
@@ -203,7 +206,8 @@ class Contract:
             eff = getattr(self, "effects", None)
             if eff is not None:
                 eff(old, self_obj, a, result)
-        ens = self.ensures(old, self_obj, a, result) if self_obj is not None else self.ensures(a, result)
+        ens_fn = getattr(self, "ensures_callee", None) or self.ensures
+        ens = ens_fn(old, self_obj, a, result) if self_obj is not None else ens_fn(a, result)
         for _label, fml in self._gen(ens):
             st.assume(fml if isinstance(fml, (SBool, bool)) else mk_bool(V._zb(fml)))
         if self_obj is not None:
@@ -256,7 +260,7 @@ def contract(target, property=None, **kw):  # noqa: A002
         ns.update(kw)
         ns["target"] = target
         ns["property"] = property
-        for fn in ("requires", "ensures", "on_raise", "pure_spec", "native_call", "make_self", "observe", "effects", "invariant"):
+        for fn in ("requires", "ensures", "on_raise", "pure_spec", "native_call", "make_self", "observe", "effects", "invariant", "ensures_callee", "setup", "call_real", "missing_field"):
             if fn in ns and inspect.isfunction(ns[fn]):
                 ns[fn] = staticmethod(ns[fn])
         C = type(cls.__name__, (Contract,), ns)
@@ -440,6 +444,9 @@ class VerifyTask:
         c = self.c
         ip = Interp(self)
         self_obj, vals = self.make_inputs(st)
+        setup = getattr(c, "setup", None)
+        if setup is not None:
+            setup(st, self_obj, vals)
         a = View(vals)
         inputs = dict(vals)
         if self_obj is not None:
@@ -458,6 +465,7 @@ class VerifyTask:
             st.assume(inv(self_obj))
         st.cover(f"{self.name}/cover@pre")
         f = FnVal(self.ref, None, None, self.defcls())
+        f.top_level = True
         args = ([self_obj] if self_obj is not None else []) + []
         kwargs = dict(vals)
         # positional binding by parameter name
@@ -512,6 +520,13 @@ class VerifyTask:
         res.solver_time = ex.solver_time
         res.queries = ex.queries
         res.obligations = [o.as_dict() | ({"smt2": o.smt2} if o.smt2 else {}) for o in ex.results()]
+        for chk in getattr(self.c, "static_checks", []) or []:
+            try:
+                label, ok, detail = chk()
+            except Exception as e:  # noqa: BLE001
+                label, ok, detail = "static-check", False, f"{type(e).__name__}: {e}"
+            res.obligations.append({"name": f"{self.name}/static/{label}", "kind": "static", "status": "discharged" if ok else "failed", "time": 0.0,
+                                    "backend": "ast", "detail": detail, "path": [], "model": None})
         res.used_contracts = sorted(self.used_contracts)
         res.inlined = sorted(self.inlined)
         return res
